@@ -67,7 +67,8 @@ theorem merge_none_right (dk : Str) (a : V) (h : a.falsy = false) : merge dk a .
 theorem merge_none_left (dk : Str) (b : V) : merge dk .none b = b := by simp [merge]
 
 theorem mergeKvs_get (dk : Str) : ∀ (ka kb : Kvs) (q : Str),
-    (mergeKvs dk ka kb).get q = if ka.has q then merge dk (ka.get q) (kb.get q) else .none
+    (mergeKvs dk ka kb).get q =
+      if ka.has q then (if kb.has q then merge dk (ka.get q) (kb.get q) else ka.get q) else .none
   | .nil, kb, q => by simp [mergeKvs, Kvs.get, Kvs.has]
   | .cons k v rest, kb, q => by
     by_cases hq : q = k
@@ -80,21 +81,14 @@ theorem mergeKvs_has (dk : Str) : ∀ (ka kb : Kvs) (q : Str), (mergeKvs dk ka k
   | .cons k v rest, kb, q => by
     simp only [mergeKvs, Kvs.has, mergeKvs_has dk rest kb q]
 
-/-- merging with a dict that shares no key leaves a truthy dict unchanged -/
-theorem mergeKvs_disjoint (dk : Str) : ∀ (ka kb : Kvs), ka.allTruthy = true → (∀ q, ka.has q = true → kb.has q = false) →
+/-- merging with a dict that shares no key leaves a dict unchanged -/
+theorem mergeKvs_disjoint (dk : Str) : ∀ (ka kb : Kvs), (∀ q, ka.has q = true → kb.has q = false) →
     mergeKvs dk ka kb = ka
-  | .nil, _, _, _ => by simp [mergeKvs]
-  | .cons k v rest, kb, ht, hd => by
-    simp only [Kvs.allTruthy, Bool.and_eq_true, Bool.not_eq_true'] at ht
-    have hk : kb.get k = .none := Kvs.get_of_not_has kb k (hd k (by simp [Kvs.has]))
+  | .nil, _, _ => by simp [mergeKvs]
+  | .cons k v rest, kb, hd => by
+    have hk : kb.has k = false := hd k (by simp [Kvs.has])
     have hr : ∀ q, rest.has q = true → kb.has q = false := fun q h => hd q (by simp [Kvs.has, h])
-    simp only [mergeKvs, hk, merge_none_right dk v ht.1, mergeKvs_disjoint dk rest kb ht.2 hr]
-
-theorem Kvs.mergeNone_id : ∀ (m : Kvs), m.allTruthy = true → m.mergeNone = m
-  | .nil, _ => rfl
-  | .cons k v rest, ht => by
-    simp only [Kvs.allTruthy, Bool.and_eq_true, Bool.not_eq_true'] at ht
-    simp [Kvs.mergeNone, ht.1, Kvs.mergeNone_id rest ht.2]
+    simp [mergeKvs, hk, mergeKvs_disjoint dk rest kb hr]
 
 theorem single_without_get (t : Str) (v : V) (out : Kvs) (q : Str) :
     ((Kvs.cons t v .nil).without out).get q = if q = t ∧ out.has t = false then v else .none := by
@@ -103,9 +97,9 @@ theorem single_without_get (t : Str) (v : V) (out : Kvs) (q : Str) :
   · have h' : out.has t = false := by simpa using h
     by_cases hq : q = t <;> simp [Kvs.without, h', Kvs.get, hq]
 
-/-- **Top-level merge touches one column only**: `merge_dicts(out_row, {t: v})` on a row of truthy values
-changes key `t` (to the merge of the old value with `v`) and no other key. -/
-theorem mergeTop_get (dk : Str) (out : Kvs) (t : Str) (v : V) (q : Str) (ht : out.allTruthy = true) :
+/-- **Top-level merge touches one column only**: `merge_dicts(out_row, {t: v})` changes key `t` (to the merge
+of the old value with `v`) and no other key — for every row, truthy values or not. -/
+theorem mergeTop_get (dk : Str) (out : Kvs) (t : Str) (v : V) (q : Str) :
     (mergeTop dk out t v).get q = if q = t then merge dk (out.get t) v else out.get q := by
   cases out with
   | nil =>
@@ -119,98 +113,42 @@ theorem mergeTop_get (dk : Str) (out : Kvs) (t : Str) (v : V) (q : Str) (ht : ou
     · subst hq
       by_cases hh : (Kvs.cons k w rest).has q = true
       · have hg : (Kvs.cons q v Kvs.nil).get q = v := by simp [Kvs.get]
-        simp only [hh, if_true, hg]
+        have hh2 : (Kvs.cons q v Kvs.nil).has q = true := by simp [Kvs.has]
+        simp only [hh, if_true, hg, hh2]
       · have hh' : (Kvs.cons k w rest).has q = false := by simpa using hh
         simp [hh', Kvs.get_of_not_has _ _ hh', merge_none_left]
     · by_cases hh : (Kvs.cons k w rest).has q = true
-      · have hg : (Kvs.cons t v Kvs.nil).get q = V.none := by simp [Kvs.get, hq]
-        simp only [hh, if_true, hg, hq, if_false]
-        exact merge_none_right dk _ (Kvs.truthy_get _ q ht hh)
+      · have hh2 : (Kvs.cons t v Kvs.nil).has q = false := by simp [Kvs.has, hq]
+        simp only [hh, if_true, hh2, hq, if_false, Bool.false_eq_true]
       · have hh' : (Kvs.cons k w rest).has q = false := by simpa using hh
         simp [hh', hq, Kvs.get_of_not_has _ _ hh']
 
-theorem Kvs.append_cons_ne (a : Kvs) (k : Str) (v : V) : (a.append (.cons k v .nil)) ≠ .nil := by
-  cases a <;> simp [Kvs.append]
+/-- merging a one-key dict into a dict is the top-level merge (also when the left dict is empty) -/
+theorem merge_dict_single (dk : Str) (m : Kvs) (l : Str) (x : V) :
+    merge dk (.dict m) (.dict (.cons l x .nil)) = .dict (mergeTop dk m l x) := by
+  cases m with
+  | nil => simp [mergeTop, merge, V.asKvs]
+  | cons k v rest => simp [mergeTop, merge, V.falsy, V.asKvs]
 
-theorem merge_truthy (dk : Str) (a b : V) (h : a.falsy = false) : (merge dk a b).falsy = false := by
-  cases a with
-  | none => simp [V.falsy] at h
-  | str s =>
-    cases s with
-    | nil => simp [V.falsy] at h
-    | cons c cs =>
-      cases b with
-      | none => simp [merge, V.falsy]
-      | str t =>
-        cases t with
-        | nil => simp [merge, V.falsy]
-        | cons d ds =>
-          by_cases hi : isInfix dk (d :: ds) = true <;> simp [merge, V.falsy, hi]
-      | dict kb =>
-        cases kb with
-        | nil => simp [merge, V.falsy]
-        | cons k v rest =>
-          by_cases hh : (Kvs.cons k v rest).has dk = true <;> simp [merge, V.falsy, hh]
-  | dict ka =>
-    cases ka with
-    | nil => simp [V.falsy] at h
-    | cons k v rest =>
-      cases b with
-      | none => simp [merge, V.falsy]
-      | str t =>
-        cases t with
-        | nil => simp [merge, V.falsy]
-        | cons d ds =>
-          by_cases hh : (Kvs.cons k v rest).has dk = true <;>
-            simp [merge, V.falsy, hh, Kvs.mergeNone, Kvs.append]
-      | dict kb =>
-        cases kb with
-        | nil => simp [merge, V.falsy]
-        | cons k' v' rest' => simp [merge, V.falsy, mergeKvs, Kvs.append]
+theorem single_without_has (t : Str) (v : V) (out : Kvs) (q : Str) :
+    ((Kvs.cons t v .nil).without out).has q = (decide (q = t) && !out.has t) := by
+  by_cases h : out.has t = true
+  · simp [Kvs.without, h, Kvs.has]
+  · have h' : out.has t = false := by simpa using h
+    simp [Kvs.without, h', Kvs.has]
 
-theorem mergeKvs_allTruthy (dk : Str) : ∀ (ka kb : Kvs), ka.allTruthy = true → (mergeKvs dk ka kb).allTruthy = true
-  | .nil, _, _ => by simp [mergeKvs, Kvs.allTruthy]
-  | .cons k v rest, kb, h => by
-    simp only [Kvs.allTruthy, Bool.and_eq_true, Bool.not_eq_true'] at h
-    simp only [mergeKvs, Kvs.allTruthy, Bool.and_eq_true, Bool.not_eq_true']
-    exact ⟨merge_truthy dk v _ h.1, mergeKvs_allTruthy dk rest kb h.2⟩
-
-theorem Kvs.append_allTruthy : ∀ (a b : Kvs), a.allTruthy = true → b.allTruthy = true → (a.append b).allTruthy = true
-  | .nil, b, _, hb => by simpa [Kvs.append] using hb
-  | .cons k v rest, b, ha, hb => by
-    simp only [Kvs.allTruthy, Bool.and_eq_true, Bool.not_eq_true'] at ha
-    simp only [Kvs.append, Kvs.allTruthy, Bool.and_eq_true, Bool.not_eq_true']
-    exact ⟨ha.1, Kvs.append_allTruthy rest b ha.2 hb⟩
-
-theorem Kvs.set_allTruthy : ∀ (m : Kvs) (t : Str) (w : V), m.allTruthy = true → w.falsy = false → (m.set t w).allTruthy = true
-  | .nil, t, w, _, hw => by simp [Kvs.set, Kvs.allTruthy, hw]
-  | .cons k v rest, t, w, hm, hw => by
-    simp only [Kvs.allTruthy, Bool.and_eq_true, Bool.not_eq_true'] at hm
-    by_cases h : t = k
-    · simp [Kvs.set, h, Kvs.allTruthy, hw, hm.2]
-    · simp only [Kvs.set, h, if_false, Kvs.allTruthy, Bool.and_eq_true, Bool.not_eq_true']
-      exact ⟨hm.1, Kvs.set_allTruthy rest t w hm.2 hw⟩
-
-theorem mergeTop_allTruthy (dk : Str) (out : Kvs) (t : Str) (v : V) (ho : out.allTruthy = true) (hv : v.falsy = false) :
-    (mergeTop dk out t v).allTruthy = true := by
+theorem mergeTop_has (dk : Str) (out : Kvs) (t : Str) (v : V) (q : Str) :
+    (mergeTop dk out t v).has q = (out.has q || decide (q = t)) := by
   cases out with
-  | nil => simp [mergeTop, merge, V.asKvs, Kvs.allTruthy, hv]
+  | nil => simp [mergeTop, merge, V.asKvs, Kvs.has]
   | cons k w rest =>
     have hm : mergeTop dk (Kvs.cons k w rest) t v =
         (mergeKvs dk (Kvs.cons k w rest) (Kvs.cons t v .nil)).append ((Kvs.cons t v .nil).without (Kvs.cons k w rest)) := by
       simp [mergeTop, merge, V.falsy, V.asKvs]
-    rw [hm]
-    apply Kvs.append_allTruthy _ _ (mergeKvs_allTruthy dk _ _ ho)
-    by_cases hh : (Kvs.cons k w rest).has t = true
-    · simp [Kvs.without, hh, Kvs.allTruthy]
-    · have hh' : (Kvs.cons k w rest).has t = false := by simpa using hh
-      simp [Kvs.without, hh', Kvs.allTruthy, hv]
-
-theorem nest_truthy : ∀ (ts : List Str) (val : Str), val ≠ [] → (nest ts val).falsy = false
-  | [], val, h => by
-    cases val with
-    | nil => exact absurd rfl h
-    | cons c cs => simp [nest, V.falsy]
-  | t :: ts, val, _ => by simp [nest, V.falsy]
+    rw [hm, Kvs.append_has, mergeKvs_has, single_without_has]
+    by_cases hq : q = t
+    · subst hq
+      cases (Kvs.cons k w rest).has q <;> simp
+    · simp [hq]
 
 end Pyxv.Headers
